@@ -20,9 +20,11 @@ SHAPES = {
     "likely-unsafe": asm(("GLOBAL", ("vp_sink", "hit")), "STOP"),
     "likely-overtly": asm(("GLOBAL", ("posix", "getpid")), "STOP"),
     "overtly": asm(("GLOBAL", ("builtins", "eval")), sbu("1+1"), "TUPLE1", "REDUCE", "STOP"),
+    # flagged although nothing is imported or called (tampering indicators only)
+    "dup-proto": asm(("PROTO", 4), ("PROTO", 4), ("BININT1", 1), "STOP"),
 }
 EXPECTED = {"safe-list": "LIKELY_SAFE", "safe-dict": "LIKELY_SAFE", "suspicious": "SUSPICIOUS", "likely-unsafe": "LIKELY_UNSAFE",
-            "likely-overtly": "LIKELY_OVERTLY_MALICIOUS", "overtly": "OVERTLY_MALICIOUS"}
+            "likely-overtly": "LIKELY_OVERTLY_MALICIOUS", "overtly": "OVERTLY_MALICIOUS", "dup-proto": "LIKELY_UNSAFE"}
 
 
 def decode_stream(text):
@@ -146,6 +148,36 @@ def _file(item):
     return out
 
 
+def same_path_history(rep, wd):
+    """The verdict faces are functions of the file's *content*: rewriting a path and asking again must follow the content."""
+    import fickling
+    from fickling.exception import UnsafeFileError
+
+    path = os.path.join(wd, "same-path.pkl")
+    n = 0
+    for first, second in itertools.permutations(SHAPES, 2):
+        for name in (first, second, first):
+            with open(path, "wb") as f:
+                f.write(SHAPES[name])
+            n += 1
+            want_safe = EXPECTED[name] == "LIKELY_SAFE"
+            got = bool(fickling.is_likely_safe(path))
+            try:
+                with open(path, "rb") as f:
+                    fickling.load(f)
+                raised = False
+            except UnsafeFileError:
+                raised = True
+            if got != want_safe:
+                rep.violate("C10|same-path|is_likely_safe", f"path rewritten {first}->{second}->{first}: is_likely_safe={got} while the file holds {name}",
+                            {"engine": "E3", "history": [first, second, first], "now": name}, 2)
+            if raised == want_safe:
+                rep.violate("C10|same-path|loader", f"path rewritten {first}->{second}->{first}: loader {'raised' if raised else 'returned'} while the file holds {name}",
+                            {"engine": "E3", "history": [first, second, first], "now": name}, 2)
+    rep.add("same_path_queries", n)
+    return n
+
+
 def operators(rep):
     from fickling.analysis import Severity
 
@@ -174,7 +206,7 @@ def check(tier):
     kmax = 4 if tier == "thorough" else 3
     kmax = 4
     stacks = [t for k in range(1, 4) for t in itertools.product(SHAPES, repeat=k)]
-    five = [n for n in SHAPES if n != "safe-dict"]
+    five = [n for n in SHAPES if n not in ("safe-dict", "dup-proto")]
     stacks += list(itertools.product(five, repeat=4))
     if tier == "thorough":
         stacks += [t for t in itertools.product(SHAPES, repeat=4) if "safe-dict" in t]
@@ -183,6 +215,7 @@ def check(tier):
         kmax = 5
     with e3.Scratch("c10") as wd:
         e3.pmap(_file, [(s, wd) for s in stacks], rep, chunksize=4)
+        same_path_history(rep, wd)
     nops = operators(rep)
     execs = sum(rep.cov.get(k, 0) for k in ("library_verdicts", "is_likely_safe_calls", "loader_calls", "cli_runs")) + nops
     e3.finish_counts(rep, len(stacks) + 36, execs, len(stacks) + 36)
